@@ -172,7 +172,6 @@ Definition same_tokens (impl model : option str) : bool :=
 Definition classify (st : storev) (c : config) (a : nat) (av : annv) : nat :=
   if Known_C17_nonfinite av then 1
   else if Known_C17_config_chars c then 2
-  else if Known_C17_nested_unexportable av then 3
   else if Known_C17_anonymous_target st av then 5
   else if Known_C17_duplicate_names st c a then 4
   else 0.
